@@ -28,7 +28,7 @@ pub struct Dims {
     pub date: u8,     // 0 in window, 1 malformed, 2 expired, 3 future, 4 a well-formed in-window timestamp followed by extra characters, 5 ... cut short by one character, 6 expired by half a second (fractional timestamp), 7 in the future by half a second
     pub cred: u8,     // 0 ok, 1 four parts, 2 six parts, 3 region, 4 service, 5 terminator, 6 date, 7 all wrong
     pub provider: u8, // 0 key, 1 ExpiredToken, 2 InvalidClientTokenId, 3 IO, 4 MalformedQueryString, 5 foreign
-    pub sig: u8,      // 0 ok, 1 wrong (64 hex), 2 too long (65), 3 empty, 4 truncated (63)
+    pub sig: u8,      // 0 ok, 1 wrong (64 hex), 2 too long (65), 3 empty, 4 truncated (63), 5 valid under the all-zero key, 6 valid under the all-0xFF key
     #[serde(default)]
     pub token: u8,    // 0 no session token, 1 a session token (temporary credentials) -- no rule depends on it
     #[serde(default)]
@@ -179,6 +179,14 @@ pub fn materialize(d: &Dims) -> Option<Case> {
         2 => replace_in_request(&mut w, &sig, &format!("{}0", sig)),
         3 => replace_in_request(&mut w, &sig, ""),
         4 => replace_in_request(&mut w, &sig, &sig[..63]),
+        5 | 6 => {
+            // the signature this request would have under a key nobody was given: thirty-two zero bytes (what a
+            // defaulted key object holds) or thirty-two 0xFF bytes
+            let mut p2 = plan.clone();
+            p2.key = if d.sig == 5 { [0u8; 32] } else { [0xffu8; 32] };
+            let other = build(&p2).signed.signature;
+            replace_in_request(&mut w, &sig, &other);
+        }
         _ => {}
     }
     // missing parameters / algorithm / syntax / carrier: wire edits
@@ -572,11 +580,72 @@ pub fn run(ctx: &Ctx) -> Report {
         st = st.merge(part);
         base += n;
     }
+    // the path check is the first of the documented order: a request with a defective path is refused for its path
+    // whatever else is wrong with it — also what the documented order does not list (a form body in an unknown or
+    // violated character set, with folding on)
+    {
+        let now = e2e::base_instant();
+        let paths = ["/a%zz", "/a%", "/../a", "/a/../../b", "*"];
+        let ctypes: [&[u8]; 4] = [
+            b"application/x-www-form-urlencoded; charset=x-no-such-charset",
+            b"application/x-www-form-urlencoded; charset=",
+            b"application/x-www-form-urlencoded",
+            b"application/x-www-form-urlencoded; charset=utf-8",
+        ];
+        let bodies: [&[u8]; 3] = [b"a=1", b"a=\xff", b"a=%zz"];
+        let n_p = (paths.len() * ctypes.len() * bodies.len() * 2) as u64;
+        let b0 = base;
+        let part = par_sweep(n_p, |i, st| {
+            let mut x = i as usize;
+            let carrier = if x % 2 == 0 { Carrier::Header } else { Carrier::Query };
+            x /= 2;
+            let body = bodies[x % bodies.len()];
+            x /= bodies.len();
+            let ct = ctypes[x % ctypes.len()];
+            x /= ctypes.len();
+            let path = paths[x];
+            let mut plan = e2e::base_plan(carrier);
+            plan.method = "POST".into();
+            plan.body = body.to_vec();
+            plan.headers.push(("Content-Type".into(), ct.to_vec()));
+            let mut w = WireReq::from_wire(&build(&plan).wire);
+            w.uri = match w.uri.split_once('?') {
+                Some((_, q)) => format!("{}?{}", path, q),
+                None => path.to_string(),
+            };
+            if path == "*" && w.uri.len() > 1 {
+                return;
+            }
+            let mut cfg = Cfg::basic(now);
+            cfg.fold = true;
+            let case = Case { wire: w, cfg, prov: ProvSpec::standard() };
+            st.evaluations += 1;
+            st.validated += 1;
+            st.transitions += 1;
+            let mut p = case.prov.to_provider();
+            let r = sut::validate(&case.wire, &case.cfg, &mut p);
+            let ok = matches!(&r, SutResult::Err(e) if e.kind == Some(Kind::InvalidURIPath) && e.status == 400) && !p.touched();
+            st.outcome(if ok { "path-first:InvalidURIPath" } else { "path-first:OTHER" });
+            st.nontrivial(&(&case.wire, "path-first"));
+            if !ok {
+                st.violation(Violation {
+                    index: b0 + i,
+                    what: "precedence(path before anything body-related)".into(),
+                    case: json!({"e2e": case}),
+                    expected: "Err(InvalidURIPath)/400, provider untouched".into(),
+                    observed: r.label(),
+                    known: None,
+                });
+            }
+        });
+        st = st.merge(part);
+        base += n_p;
+    }
     taxonomy(&mut st, base);
     Report {
         stats: st,
         rule: format!(
-            "precedence automaton over the 14 documented stages; full product of defect vectors per carrier ({} header-carrier, {} query-carrier vectors): path {{ok, %zz, trailing %, above root, '*'}} x query {{ok, %zz, trailing %}} x carrier {{one, none, both, both with a non-SigV4 second carrier}} x algorithm x parameter syntax x missing ⊆ {{credential, signature, signed headers, date}} x requirements {{ok, host, always, conditional, prefix unsigned}} x date {{in window, malformed, expired, future, well-formed + trailing characters, well-formed cut short, expired / future by half a second}} x credential {{ok, 4 parts, 6 parts, region, service, terminator, date, all wrong}} x provider {{key, ExpiredToken, InvalidClientTokenId, IO, MalformedQueryString, foreign}} x signature {{ok, wrong, too long, empty, truncated}} x session token {{absent, present}}{}; every vector with at most two defects is validated right after the fully valid request on the same thread; every vector is materialised as a concrete request (correctly signed wherever a signature is still meaningful; 1 in 16 cross-checked against the reference verifier) and replayed on sigv4_validate_request: kind, code, status, downcast to SignatureError, status class and provider consultation compared with the automaton's terminal; plus the kind->(code,status) table for every variant directly and through From<Box<dyn Error>>. states = (stage, vector prefix) pairs of the model; transitions = stage steps",
+            "precedence automaton over the 14 documented stages; full product of defect vectors per carrier ({} header-carrier, {} query-carrier vectors): path {{ok, %zz, trailing %, above root, '*'}} x query {{ok, %zz, trailing %}} x carrier {{one, none, both, both with a non-SigV4 second carrier}} x algorithm x parameter syntax x missing ⊆ {{credential, signature, signed headers, date}} x requirements {{ok, host, always, conditional, prefix unsigned}} x date {{in window, malformed, expired, future, well-formed + trailing characters, well-formed cut short, expired / future by half a second}} x credential {{ok, 4 parts, 6 parts, region, service, terminator, date, all wrong}} x provider {{key, ExpiredToken, InvalidClientTokenId, IO, MalformedQueryString, foreign}} x signature {{ok, wrong, too long, empty, truncated}} x session token {{absent, present}}{}; every vector with at most two defects is validated right after the fully valid request on the same thread; every vector is materialised as a concrete request (correctly signed wherever a signature is still meaningful; 1 in 16 cross-checked against the reference verifier) and replayed on sigv4_validate_request: kind, code, status, downcast to SignatureError, status class and provider consultation compared with the automaton's terminal; plus 5 defective paths x 4 form content types (unknown / empty / no / UTF-8 charset) x 3 bodies (fine, undecodable, bad escape) with folding on, which are refused for their path; plus the kind->(code,status) table for every variant directly and through From<Box<dyn Error>>. states = (stage, vector prefix) pairs of the model; transitions = stage steps",
             sizes[0], sizes[1], if thorough { "" } else { " (quick: a sub-lattice with at least one defect variant per stage and missing ∈ {none, each singleton, all})" }
         ),
         bounds: json!({"header_vectors": sizes[0], "query_vectors": sizes[1]}),
